@@ -131,6 +131,9 @@ def cases(tier, seed):
                 us.append({"variants": ["VA", "VB"], "disc": disc, "nullable": False, "kw": "oneOf", "prop": prop, "uname": uname})
     for u in us:
         out.append({"kind": "union", "union": u})
+    # (g) schema names that derive the same class / module name, every one of them really used (referenced, returned, self-referential)
+    for names in COLLIDING_GROUPS:
+        out.append({"kind": "colliding", "names": list(names)})
     # (a) graphs
     gs = graphs.graphs(2, 1, req_flags=(0,)) if tier == "quick" else graphs.graphs(2, 1)
     if tier != "quick":
@@ -146,6 +149,24 @@ def cases(tier, seed):
         c["kind"] = "graph"
         out.append(c)
     return out
+
+
+COLLIDING_GROUPS = [("UserProfile", "User_Profile"), ("OrderItem", "Order_Item", "order-item"), ("Foo", "foo"), ("Category", "category", "CATEGORY", "Cate-gory"),
+                    ("HTTPError", "HttpError"), ("A1", "A_1", "A-1", "a1")]
+
+
+def colliding_doc(names):
+    schemas = {}
+    paths = {}
+    for i, n in enumerate(names):
+        schemas[n] = {"type": "object", "properties": {f"p{i}": {"type": "string"}}}
+        if i % 2 == 1:
+            schemas[n]["properties"]["next"] = {"$ref": "#/components/schemas/" + n}   # every second one refers to itself
+        paths[f"/r{i}"] = {"get": {"operationId": f"getR{i}", "responses": {"200": {"description": "d", "content": {"application/json": {"schema": {"$ref": "#/components/schemas/" + n}}}}}},
+                           "post": {"operationId": f"putR{i}", "requestBody": {"required": True, "content": {"application/json": {"schema": {"$ref": "#/components/schemas/" + n}}}},
+                                    "responses": {"204": {"description": "d"}}}}
+    schemas["ZzHolder"] = {"type": "object", "properties": {f"h{i}": {"$ref": "#/components/schemas/" + n} for i, n in enumerate(names)}}
+    return sandbox.base_doc(schemas, paths)
 
 
 TAG_SPELLINGS = ["Users", "users", "user-admin", "User Admin", "userAdmin", "DataSources", "apiKeys", "v1", "2fa", "x.y", "x/y", "a:b", "Pets & Owners",
@@ -230,8 +251,11 @@ def run_case(case):
         fs = [{"sig": sig, "key": label, "msg": f"{label}: {msg}"} for sig, msg in res]
         return {"findings": fs, "nontrivial": label if graphs.has_cycle(case["nodes"]) else None,
                 "outcome": "graph:" + ("finding" if fs else "ok"), "sample": {"graph": label, "modules_imported": n}}
-    if k in ("tag", "union"):
-        if k == "tag":
+    if k in ("tag", "union", "colliding"):
+        if k == "colliding":
+            doc = colliding_doc(case["names"])
+            label = "colliding-schemas|" + ",".join(case["names"])
+        elif k == "tag":
             doc = tag_doc(case["tag"])
             label = f"tag|{case['tag']!r}"
         else:
